@@ -1,17 +1,24 @@
 #!/bin/bash
-# usage: collect_seeded.sh <Cnn> <suffix>  : collect the mutant in /tmp/wt_<Cnn> into /verif/seeded/<Cnn>_<suffix>/ and confirm it
+# usage: collect_seeded.sh <Cnn> <suffix> [reverify]
+#  collect the mutant left in /tmp/wt_<Cnn> into /verif/seeded/<Cnn>_<suffix>/ and confirm it (no git stash: the stash is shared by all worktrees)
 id=$1; suf=$2; wt=/tmp/wt_$id; dst=/verif/seeded/${id}_$suf
 mkdir -p $dst
-git -C $wt diff -- src > $dst/patch.diff
-rm -rf $dst/demo; cp -r $wt/demo $dst/demo 2>/dev/null
-find $dst/demo -name "__pycache__" -o -name ".mypy_cache*" -o -name "out*" -type d | xargs rm -rf 2>/dev/null
-export PYTHONPATH=$wt/src PYTHONSAFEPATH=1 MYPY_CACHE_DIR=$wt/.mypy_cache_x
 cd $wt
+if [ "$3" = "reverify" ]; then
+  git checkout -q -- . ; git clean -fdxq
+  cp -r $dst/demo $wt/demo
+  git apply $dst/patch.diff || { echo "$dst: patch does not apply"; exit 1; }
+else
+  git diff -- src > $dst/patch.diff
+  rm -rf $dst/demo; cp -r $wt/demo $dst/demo 2>/dev/null
+  find $dst/demo \( -name "__pycache__" -o -name ".mypy_cache*" \) -type d | xargs rm -rf 2>/dev/null
+fi
+export PYTHONPATH=$wt/src PYTHONSAFEPATH=1 MYPY_CACHE_DIR=$wt/.mypy_cache_x
 /venv/bin/python demo/demo.py > $dst/demo_with_patch.log 2>&1; rc_with=$?
-git stash -q -- src
-/venv/bin/python demo/demo.py > $dst/demo_without_patch.log 2>&1; rc_without=$?
-git stash pop -q
 /venv/bin/python -m pytest -q -p no:cacheprovider --timeout=900 -q tests --junitxml=$dst/junit_with_patch.xml > /dev/null 2>&1
+git apply -R $dst/patch.diff
+/venv/bin/python demo/demo.py > $dst/demo_without_patch.log 2>&1; rc_without=$?
+git apply $dst/patch.diff
 python3 - $dst $rc_with $rc_without <<'PY'
 import sys, json, xml.etree.ElementTree as ET
 dst, rc_with, rc_without = sys.argv[1], int(sys.argv[2]), int(sys.argv[3])
